@@ -110,6 +110,16 @@ def r1_decision_table(ctx):
                 key = tuple(sorted(_canon_operand(ctx, b, pos[0], pos[1], x) for x in ops))
                 a = ATOMS.get(key)
                 if a is None:
+                    # a test of some of the two directory mode bits the kernel looks at: (mode(dir) & M) ==/!= K with M within S_ISVTX|S_IWOTH
+                    import re as _re
+                    mm = [(_re.fullmatch(r"\(const:(\d+)&mode\(dir\)\)", k_), k_) for k_ in key]
+                    kk = [k_ for k_ in key if _re.fullmatch(r"const:\d+", k_)]
+                    mm = [m_ for (m_, _k) in mm if m_]
+                    if len(mm) == 1 and len(kk) == 1:
+                        M = int(mm[0].group(1))
+                        K = int(kk[0][6:])
+                        if M and (M & ~STICKY_WW) == 0 and (K & ~M) == 0:
+                            return (("MODE", M, K), s.rv["op"] == "Eq")
                     unknown.append((bb, key))
                     return None
                 return (a, s.rv["op"] == "Eq")
@@ -139,8 +149,11 @@ def r1_decision_table(ctx):
         return out
     # push all 16 valuations through the CFG
     table = {}
-    for vals in itertools.product([False, True], repeat=4):
-        env = dict(zip(["P0", "P1", "P2", "P3"], vals))
+    for vals5 in itertools.product([False, True], repeat=5):
+        p0_, p1_, st_, ww_, p3_ = vals5
+        vals = (p0_, p1_, st_ and ww_, p3_)
+        env = {"P0": p0_, "P1": p1_, "P2": st_ and ww_, "P3": p3_}
+        dirbits = (0o1000 if st_ else 0) | (0o2 if ww_ else 0)
         bb = cfg.entry
         steps = 0
         res = None
@@ -156,7 +169,11 @@ def r1_decision_table(ctx):
                 break
             if t.kind == "switch" and bb in sw_atom:
                 atom, is_eq = sw_atom[bb]
-                truth = env[atom] if is_eq else (not env[atom])
+                if isinstance(atom, tuple) and atom[0] == "MODE":
+                    holds_ = (dirbits & atom[1]) == atom[2]
+                else:
+                    holds_ = env[atom]
+                truth = holds_ if is_eq else (not holds_)
                 nxt = [e for e in es if (e.label != ("sw", 0)) == truth]
             elif t.kind == "switch":
                 # `?` on a metadata() result: assume the call succeeded (Continue = 0)
@@ -167,17 +184,17 @@ def r1_decision_table(ctx):
                 res = "stuck@bb%d" % bb
                 break
             bb = nxt[0].dst
-        table[vals] = res
+        table[vals5] = res
     bad = []
-    for vals, res in table.items():
-        p0, p1, p2, p3 = vals
-        want = "Ok" if (p0 or p1 or (not p2) or p3) else "Err"
+    for vals5, res in table.items():
+        p0, p1, st_, ww_, p3 = vals5
+        want = "Ok" if (p0 or p1 or (not (st_ and ww_)) or p3) else "Err"
         if res != want:
-            bad.append("sysctl_off=%s owner_is_fsuid=%s sticky_ww_dir=%s owner_is_dir_owner=%s: got %s, kernel %s" % (p0, p1, p2, p3, res, want))
+            bad.append("sysctl_off=%s owner_is_fsuid=%s dir_sticky=%s dir_other_writable=%s owner_is_dir_owner=%s: got %s, kernel %s" % (p0, p1, st_, ww_, p3, res, want))
     if bad:
-        out.append(violated("C15.R1", "may_follow_link:table", b.where(), "decision table differs from the kernel's in %d of 16 rows: %s" % (len(bad), bad[0]), bad))
+        out.append(violated("C15.R1", "may_follow_link:table", b.where(), "decision table differs from the kernel's in %d of 32 rows: %s" % (len(bad), bad[0]), bad))
     else:
-        out.append(holds("C15.R1", "may_follow_link:table", b.where(), "16/16 rows equal the kernel's may_follow_link()"))
+        out.append(holds("C15.R1", "may_follow_link:table", b.where(), "32/32 rows (sysctl, owner==fsuid, dir sticky, dir other-writable, owner==dir owner) equal the kernel's may_follow_link()"))
     # refusal errno
     errs = {o.const_int(True) for c in b.calls("std::io::Error::from_raw_os_error") for o in ctx.tracer.origins_of_arg(c, 0)}
     (out.append(holds("C15.R1", "may_follow_link:errno", b.where(), "refusal -> EACCES")) if errs == {EACCES} else
